@@ -527,7 +527,11 @@ func (m *MonValidators) AfterStep(nw *Network) {
 				}
 				nw.Res.count("validator_witness_membership_checks", 1)
 				if !set[ev.Creator()] {
-					nw.violate(m.Prop, m.Prop+":witness-outside-round-set",
+					sig := m.Prop + ":witness-outside-round-set"
+					if lateSetChangeBefore(n, r) > 0 {
+						sig += "-after-late-validator-set-change"
+					}
+					nw.violate(m.Prop, sig,
 						fmt.Sprintf("node %d: event %s is a witness of round %d but its creator is not in that round's validator set", n.Idx, w[:12], r), map[string]interface{}{"node": n.Idx})
 					return
 				}
